@@ -24,6 +24,8 @@ def main(tier):
     consumers.grid_depth(P, rep)
     consumers.base64_length(P, rep)
     consumers.grid_cartesian(P, rep)
+    from ..rules import frame as _frame
+    rep.attempt(_frame.sphere_projection, P, rep)     # sphere grid: nodes are moved along their ray onto the requested radius
     consumers.option_loop_discipline(P, rep, "gwb-grid", "GRID.options")
     rep.assumptions.append("node placement and connectivity of the four grid generators are NOT decided "
                            "(index arithmetic and trigonometry over run-time sizes; DESIGN.md §4 C18)")
